@@ -643,6 +643,12 @@ def oracle_full(run, spec):
     for i in (1, 3):
         if relerr(out0.particles[:, i], beam.particles[:, i], float(beam.particles[:, i].abs().max())) > 1e-12:
             bad.append(("zero_charge_px_restored", {"coordinate": i}))
+    # ... and against the INCOMING beam (not only against the SI round trip, which shares from_xyz_pxpypz with track): without
+    # charge the element must hand back px, py and delta to round-off (measured on the present code: <= 0.1 floor_of)
+    for i in (1, 3, 5):
+        dev = float((out0.particles[:, i] - beam.particles[:, i]).abs().max())
+        if dev > 4 * floor_of(beam, i):
+            bad.append(("zero_charge_restores_px_py_delta", {"coordinate": i, "max_abs_change": dev, "round_off_floor": 4 * floor_of(beam, i)}))
     # --- lost particles are not sources: append lost particles (inside the bunch and far away); the others' kicks stay
     k = 5
     extra = beam.particles[:k].clone()
